@@ -214,18 +214,19 @@ func (c *c28Ctx) headerCase(s *c28Seq, n int) {
 		if acc.Len() != int64(n) {
 			c.r.Violation("reopened-len-wrong", fmt.Sprintf("Len()=%d after %d adds", acc.Len(), n), cs)
 		}
-		h1 := acc.GetMerkleHeader()
-		h2 := acc.GetMerkleHeader()
-		if !c28HdrEq(h1, s.ref[n], n) || !c28HdrEq(h2, s.ref[n], n) {
-			c.r.Violation("header-differs-from-reference:reopened", fmt.Sprintf("N=%d header %v / %v, reference root %x", n, h1, h2, s.ref[n]), cs)
+		tree, accb := s.buckets(n)
+		acc2, err := hexary.NewAccumulator(tree, accb, "")
+		if err != nil {
+			c.r.Violation("open-fails", fmt.Sprintf("NewAccumulator on the buckets of %d adds: %v", n, err), cs)
+			return
 		}
-		h3, err := acc.Finalize()
-		if err != nil || !c28HdrEq(h3, s.ref[n], n) {
-			c.r.Violation("finalize-header-differs-from-reference", fmt.Sprintf("N=%d Finalize -> %v, %v; reference root %x", n, h3, err, s.ref[n]), cs)
+		c.entryPoints(cs, s, "reopened", fmt.Sprintf("N=%d re-opened", n), acc, nil, nil, n, false, false)
+		c.entryPoints(cs, s, "reopened", fmt.Sprintf("N=%d re-opened", n), acc2, tree, accb, n, true, false)
+		// SetLen to the current length is a no-op and must not disturb anything
+		if err := acc.SetLen(int64(n)); err != nil {
+			c.r.Violation("setlen-to-len-fails", fmt.Sprintf("N=%d: %v", n, err), cs)
 		}
-		if h4 := acc.GetMerkleHeader(); !c28HdrEq(h4, s.ref[n], n) {
-			c.r.Violation("header-changes-after-finalize", fmt.Sprintf("N=%d header after Finalize %v", n, h4), cs)
-		}
+		c.entryPoints(cs, s, "after-setlen-to-len", fmt.Sprintf("N=%d SetLen(%d)", n, n), acc, nil, nil, n, true, false)
 		if n > 0 {
 			if err := acc.SetLen(int64(n) + 1); err == nil {
 				c.r.Violation("setlen-beyond-len-accepted", fmt.Sprintf("SetLen(%d) on Len %d returned nil", n+1, n), cs)
@@ -364,87 +365,171 @@ func (c *c28Ctx) proofCase(s *c28Seq, n int, allKeys, sequential bool) {
 	c.r.Eval(1)
 }
 
-// rewindCase: buckets of N adds, re-opened, SetLen(l).
+// entryPoints compares EVERY header-returning entry point of an accumulator
+// that should now hold exactly the first `want` hashes with the reference:
+// Len, GetMerkleHeader and Finalize (in the given order, then both again), a
+// proof of the first and the last key against the finalized header, and (if
+// tree/accb are given) what an accumulator re-opened from the buckets reports.
+// where names the situation for the signature ("after-rewind", ...).
+// It returns false if something differed.
+func (c *c28Ctx) entryPoints(cs C28Case, s *c28Seq, where, ctx string, acc hexary.Accumulator, tree, accb *c28Bucket, want int, finalizeFirst, reopenIsObservation bool) bool {
+	ok := true
+	bad := func(sig, detail string) {
+		ok = false
+		c.r.Violation(sig+":"+where, fmt.Sprintf("%s: %s; the first %d hashes have reference root %x", ctx, detail, want, s.ref[want]), cs)
+	}
+	if acc.Len() != int64(want) {
+		bad("len-differs-from-prefix", fmt.Sprintf("Len()=%d", acc.Len()))
+	}
+	var fh *hexary.MerkleHeader
+	get := func(round string) {
+		if h := acc.GetMerkleHeader(); !c28HdrEq(h, s.ref[want], want) {
+			bad("getmerkleheader-differs-from-prefix"+round, fmt.Sprintf("GetMerkleHeader() = %v", h))
+		}
+	}
+	fin := func(round string) {
+		h, err := acc.Finalize()
+		if err != nil || !c28HdrEq(h, s.ref[want], want) {
+			bad("finalize-differs-from-prefix"+round, fmt.Sprintf("Finalize() = %v, %v", h, err))
+		} else {
+			fh = h
+		}
+	}
+	if finalizeFirst {
+		fin("")
+		get("")
+	} else {
+		get("")
+		fin("")
+	}
+	get(":repeated")
+	fin(":repeated")
+	c.add("entry_point_comparisons", 5)
+	if fh != nil && want > 0 && tree != nil {
+		prover, err := hexary.NewMerkleTree(tree, fh, -1)
+		if err != nil {
+			bad("merkletree-open-fails", err.Error())
+		} else {
+			for _, key := range []int{0, want - 1} {
+				pf, err := prover.Prove(int64(key), 0)
+				if err != nil {
+					bad("prove-fails", fmt.Sprintf("Prove(%d,0) against the finalized header: %v", key, err))
+				} else if err := c28Fresh(fh).Add(int64(key), s.hash[key], pf); err != nil {
+					bad("valid-proof-rejected", fmt.Sprintf("key %d: %v", key, err))
+				}
+			}
+		}
+	}
+	if tree != nil && accb != nil {
+		re, err := hexary.NewAccumulator(tree, accb, "")
+		var rh, rf *hexary.MerkleHeader
+		if err == nil {
+			rh = re.GetMerkleHeader()
+			rf, err = re.Finalize()
+		}
+		if err != nil || !c28HdrEq(rh, s.ref[want], want) || !c28HdrEq(rf, s.ref[want], want) {
+			if reopenIsObservation {
+				c.add("obs_rewind_not_persisted", 1)
+				c.obsOnce.Do(func() {
+					c.obsText.Store(fmt.Sprintf("%s: a re-opened accumulator reports %v", ctx, rh))
+				})
+			} else {
+				bad("reopened-differs-from-prefix", fmt.Sprintf("an accumulator re-opened from the buckets reports GetMerkleHeader %v, Finalize %v, %v", rh, rf, err))
+			}
+		} else {
+			c.add("reopened_agrees", 1)
+		}
+	}
+	return ok
+}
+
+// rewindCase: buckets of N adds, re-opened, SetLen(l). Run twice on two
+// copies: once asking Finalize first after the rewind, once GetMerkleHeader
+// first (the second copy then continues with adds and a second rewind).
 func (c *c28Ctx) rewindCase(s *c28Seq, n, l int) {
 	cs := C28Case{Seq: s.name, Kind: "rewind", N: n, L: l}
 	rel := c28Pow16Rel(l)
 	if p := ev.Catch(func() {
-		acc, tree, accb := c.open(cs, s, n)
-		if acc == nil {
-			return
-		}
-		if err := acc.SetLen(int64(l)); err != nil {
-			c.r.Violation("setlen-fails:"+rel, fmt.Sprintf("N=%d SetLen(%d): %v", n, l, err), cs)
-			return
-		}
-		hd := acc.GetMerkleHeader()
-		if acc.Len() != int64(l) || !c28HdrEq(hd, s.ref[l], l) {
-			c.r.Violation("rewound-header-differs-from-prefix:"+rel, fmt.Sprintf("N=%d SetLen(%d): Len=%d header %v, header of the prefix has root %x", n, l, acc.Len(), hd, s.ref[l]), cs)
-			return
-		}
-		// observation only (not part of the property statement): is the rewind persisted?
-		if re, err := hexary.NewAccumulator(tree, accb, ""); err == nil {
-			if rh := re.GetMerkleHeader(); !c28HdrEq(rh, s.ref[l], l) {
-				c.add("obs_rewind_not_persisted", 1)
-				c.obsOnce.Do(func() {
-					c.obsText.Store(fmt.Sprintf("after N=%d SetLen(%d) a re-opened accumulator reports %v", n, l, rh))
-				})
-			} else {
-				c.add("obs_rewind_persisted", 1)
-			}
-		}
-		if l < n {
-			if err := acc.SetLen(int64(l) + 1); err == nil {
-				c.r.Violation("setlen-beyond-len-accepted:after-rewind", fmt.Sprintf("N=%d SetLen(%d) then SetLen(%d) returned nil", n, l, l+1), cs)
-			}
-		}
-		// subsequent behaviour: adding the next hashes again gives the headers of the longer prefixes
-		k := n - l
-		if k > c.readd && n > c.maxSmall {
-			k = c.readd
-		}
-		for j := 1; j <= k; j++ {
-			if err := acc.Add(s.hash[l+j-1]); err != nil {
-				c.r.Violation("add-after-rewind-fails:"+rel, fmt.Sprintf("N=%d SetLen(%d) add #%d: %v", n, l, j, err), cs)
+		for _, finalizeFirst := range []bool{true, false} {
+			acc, tree, accb := c.open(cs, s, n)
+			if acc == nil {
 				return
 			}
-			if h := acc.GetMerkleHeader(); !c28HdrEq(h, s.ref[l+j], l+j) {
-				c.r.Violation("header-after-rewind-and-add-differs:"+rel, fmt.Sprintf("N=%d SetLen(%d) then %d adds: header %v, reference root %x", n, l, j, h, s.ref[l+j]), cs)
-				return
-			}
-		}
-		m := l + k
-		fh, err := acc.Finalize()
-		if err != nil || !c28HdrEq(fh, s.ref[m], m) {
-			c.r.Violation("finalize-after-rewind-differs:"+rel, fmt.Sprintf("N=%d SetLen(%d) +%d adds: Finalize %v, %v", n, l, k, fh, err), cs)
-			return
-		}
-		if m > 0 {
-			prover, err := hexary.NewMerkleTree(tree, fh, -1)
-			if err != nil {
-				c.r.Violation("merkletree-open-fails:after-rewind", fmt.Sprintf("N=%d l=%d: %v", n, l, err), cs)
-				return
-			}
-			for _, key := range []int{0, l - 1, l, m - 1} {
-				if key < 0 || key >= m {
-					continue
+			if !finalizeFirst && (n+l)%2 == 1 {
+				// half of the pairs: the N-state had been finalized before the rewind
+				if _, err := acc.Finalize(); err != nil {
+					c.r.Violation("finalize-fails", fmt.Sprintf("N=%d: %v", n, err), cs)
+					return
 				}
-				pf, err := prover.Prove(int64(key), 0)
+			}
+			if err := acc.SetLen(int64(l)); err != nil {
+				c.r.Violation("setlen-fails:"+rel, fmt.Sprintf("N=%d SetLen(%d): %v", n, l, err), cs)
+				return
+			}
+			// SetLen(0) does not write the accumulator record (observation, see DETECTION.md);
+			// for every other l the re-opened view must agree as well.
+			if !c.entryPoints(cs, s, "after-rewind:"+rel, fmt.Sprintf("N=%d SetLen(%d)", n, l), acc, tree, accb, l, finalizeFirst, l == 0 && n > 0) {
+				return
+			}
+			if finalizeFirst {
+				continue
+			}
+			if l < n {
+				if err := acc.SetLen(int64(l) + 1); err == nil {
+					c.r.Violation("setlen-beyond-len-accepted:after-rewind", fmt.Sprintf("N=%d SetLen(%d) then SetLen(%d) returned nil", n, l, l+1), cs)
+				}
+			}
+			// subsequent behaviour: adding the next hashes again gives the headers of the longer prefixes
+			k := n - l
+			if k > c.readd && n > c.maxSmall {
+				k = c.readd
+			}
+			for j := 1; j <= k; j++ {
+				if err := acc.Add(s.hash[l+j-1]); err != nil {
+					c.r.Violation("add-after-rewind-fails:"+rel, fmt.Sprintf("N=%d SetLen(%d) add #%d: %v", n, l, j, err), cs)
+					return
+				}
+				// every entry point after every add (proofs / re-open only after the last one)
+				var t, a *c28Bucket
+				if j == k {
+					t, a = tree, accb
+				}
+				if !c.entryPoints(cs, s, "after-rewind-and-add:"+rel, fmt.Sprintf("N=%d SetLen(%d) then %d adds", n, l, j), acc, t, a, l+j, j%2 == 0, false) {
+					return
+				}
+			}
+			m := l + k
+			if m > 0 {
+				fh, err := acc.Finalize()
 				if err != nil {
-					c.r.Violation("prove-fails:after-rewind:"+rel, fmt.Sprintf("N=%d SetLen(%d) +%d adds, key %d: %v", n, l, k, key, err), cs)
-					continue
+					return
 				}
-				if err := c28Fresh(fh).Add(int64(key), s.hash[key], pf); err != nil {
-					c.r.Violation("valid-proof-rejected:after-rewind:"+rel, fmt.Sprintf("N=%d SetLen(%d) +%d adds, key %d: %v", n, l, k, key, err), cs)
+				prover, err := hexary.NewMerkleTree(tree, fh, -1)
+				if err != nil {
+					c.r.Violation("merkletree-open-fails:after-rewind", fmt.Sprintf("N=%d l=%d: %v", n, l, err), cs)
+					return
+				}
+				for _, key := range []int{l - 1, l} {
+					if key < 0 || key >= m {
+						continue
+					}
+					pf, err := prover.Prove(int64(key), 0)
+					if err != nil {
+						c.r.Violation("prove-fails:after-rewind-and-add:"+rel, fmt.Sprintf("N=%d SetLen(%d) +%d adds, key %d: %v", n, l, k, key, err), cs)
+						continue
+					}
+					if err := c28Fresh(fh).Add(int64(key), s.hash[key], pf); err != nil {
+						c.r.Violation("valid-proof-rejected:after-rewind-and-add:"+rel, fmt.Sprintf("N=%d SetLen(%d) +%d adds, key %d: %v", n, l, k, key, err), cs)
+					}
 				}
 			}
-		}
-		// a second rewind from the rewound-and-regrown state
-		l2 := l / 2
-		if err := acc.SetLen(int64(l2)); err != nil {
-			c.r.Violation("setlen-fails:second:"+c28Pow16Rel(l2), fmt.Sprintf("N=%d SetLen(%d) +%d adds SetLen(%d): %v", n, l, k, l2, err), cs)
-		} else if h := acc.GetMerkleHeader(); !c28HdrEq(h, s.ref[l2], l2) {
-			c.r.Violation("rewound-header-differs-from-prefix:second:"+c28Pow16Rel(l2), fmt.Sprintf("N=%d SetLen(%d) +%d adds SetLen(%d): header %v, reference root %x", n, l, k, l2, h, s.ref[l2]), cs)
+			// a second rewind from the rewound-and-regrown (and finalized) state
+			l2 := l / 2
+			if err := acc.SetLen(int64(l2)); err != nil {
+				c.r.Violation("setlen-fails:second:"+c28Pow16Rel(l2), fmt.Sprintf("N=%d SetLen(%d) +%d adds SetLen(%d): %v", n, l, k, l2, err), cs)
+			} else {
+				c.entryPoints(cs, s, "after-second-rewind:"+c28Pow16Rel(l2), fmt.Sprintf("N=%d SetLen(%d) +%d adds SetLen(%d)", n, l, k, l2), acc, tree, accb, l2, (n+l)%2 == 0, l2 == 0 && m > 0)
+			}
 		}
 	}); p != "" {
 		c.r.Violation("rewind-panic:"+rel, fmt.Sprintf("N=%d SetLen(%d): %s", n, l, p), cs)
@@ -475,6 +560,11 @@ func (c *c28Ctx) build(name string, distinct bool, maxN int) *c28Seq {
 		panic(err)
 	}
 	btree, bacc := &c28Bucket{}, &c28Bucket{}
+	// a third, live accumulator that is finalized after every add
+	live, err := hexary.NewAccumulator(&c28Bucket{}, &c28Bucket{}, "")
+	if err != nil {
+		panic(err)
+	}
 	s.treeCnt = make([]int, maxN+1)
 	s.accData = make([][]byte, maxN+1)
 	for n := 0; ; n++ {
@@ -493,11 +583,21 @@ func (c *c28Ctx) build(name string, distinct bool, maxN int) *c28Seq {
 		if !c28HdrEq(bh, s.ref[n], n) {
 			c.r.Violation("header-differs-from-reference:reopened-every-add", fmt.Sprintf("N=%d header %v, reference root %x", n, bh, s.ref[n]), cs)
 		}
+		if p := ev.Catch(func() {
+			c.entryPoints(cs, s, "reopened-every-add", fmt.Sprintf("N=%d (re-opened before every add)", n), b, nil, nil, n, n%2 == 0, false)
+			c.entryPoints(cs, s, "live-finalized-every-add", fmt.Sprintf("N=%d (live, finalized after every add)", n), live, nil, nil, n, n%2 == 1, false)
+		}); p != "" {
+			c.r.Violation("header-panic", fmt.Sprintf("N=%d: %s", n, p), cs)
+			return nil
+		}
 		if n == maxN {
 			break
 		}
 		if p := ev.Catch(func() {
 			if err := master.Add(s.hash[n]); err != nil {
+				panic(err)
+			}
+			if err := live.Add(s.hash[n]); err != nil {
 				panic(err)
 			}
 			if err := b.Add(s.hash[n]); err != nil {
@@ -530,7 +630,7 @@ func TestVerifC28(t *testing.T) {
 	small := r.Pick(300, 1500) // every (N,l) pair and every key up to here
 	constN := 300
 	c := &c28Ctx{r: r, readd: 17, maxSmall: r.Pick(64, 300)}
-	r.Rule(fmt.Sprintf("hash sequence h_i = SHA3(i) ('distinct') for N = 0..%d and the constant sequence ('constant', positive checks only) for N = 0..%d; phase 1: header after every add of a live accumulator and of one re-opened from its buckets before every add, against the reference root; phase 2 on exact copies of the buckets after N adds: 'header' every N (re-open, header twice, Finalize, header); 'proof' every N<=%d with every key, larger N with key boundaries and every 16th key: Prove(key,0) accepted by a fresh tree made from the header, and for the distinct sequence rejected with another hash, as key+1/key-1, with one byte flipped in each level, with each level dropped; keys in order with Prove(key,-1) into one tree (N<=%d and the special N); 'rewind' SetLen(l): every pair l<=N<=%d, for larger N: every l for N in {16^k-1,16^k,16^k+1,%d} and l in {0,N-1,N-15,N-16,N-17,16^k-1,16^k,16^k+1} for every N; after the rewind: header = reference of the prefix, SetLen(l+1) fails, re-add (all up to N for N<=%d, else %d) with header compared after every add, Finalize, proofs of keys 0,l-1,l,last, second rewind to l/2. evaluation = one case; non-trivial = distinct (sequence, kind, N, l)", maxN, constN, small, small, small, maxN, c.maxSmall, c.readd))
+	r.Rule(fmt.Sprintf("hash sequence h_i = SHA3(i) ('distinct') for N = 0..%d and the constant sequence ('constant', positive checks only) for N = 0..%d; phase 1: header after every add of a live accumulator and of one re-opened from its buckets before every add, against the reference root; in every situation ALL header-returning entry points are compared with the reference: Len, GetMerkleHeader and Finalize in both orders and repeated, proofs of the first and last key against the finalized header, and the view of an accumulator re-opened from the buckets; phase 1 also on a live accumulator finalized after every add; phase 2 on exact copies of the buckets after N adds: 'header' every N (re-opened, also after the no-op SetLen(N)); 'proof' every N<=%d with every key, larger N with key boundaries and every 16th key: Prove(key,0) accepted by a fresh tree made from the header, and for the distinct sequence rejected with another hash, as key+1/key-1, with one byte flipped in each level, with each level dropped; keys in order with Prove(key,-1) into one tree (N<=%d and the special N); 'rewind' SetLen(l): every pair l<=N<=%d, for larger N: every l for N in {16^k-1,16^k,16^k+1,%d} and l in {0,N-1,N-15,N-16,N-17,16^k-1,16^k,16^k+1} for every N; each rewind on two copies (Finalize asked first / GetMerkleHeader asked first; for odd N+l the N-state is finalized before the rewind): immediately after SetLen(l), before any Add, all entry points incl. the re-opened view (for l=0 the re-opened view is only an observation) = reference of the prefix; SetLen(l+1) fails; re-add (all up to N for N<=%d, else %d) with all entry points after every add; proofs of keys l-1,l; second rewind to l/2 with all entry points. evaluation = one case; non-trivial = distinct (sequence, kind, N, l)", maxN, constN, small, small, small, maxN, c.maxSmall, c.readd))
 	r.Assume("reference root: groups of 16 hashed level by level with SHA3-256 until one hash is left; a single hash is its own root", "storage: an in-memory db.Bucket of the harness that copies on Set and Get", "'rejected' means Add returns any error (ErrVerify and other errors are counted separately)")
 
 	seqs := []*c28Seq{}
